@@ -135,6 +135,7 @@ class Registry:
         self.contracts = {}
         self.lemmas = {}
         self.steps = {}
+        self.roundtrips = {}
         self.statics = {}  # name -> (callable(reg) -> result dict, props)
         self.classes = {}
         self.spec_functions = {}
@@ -154,6 +155,10 @@ class Registry:
         l = Lemma(name, **kw)
         self.lemmas[name] = l
         return l
+
+    def roundtrip(self, name, **kw):
+        self.roundtrips[name] = RoundTrip(name, **kw)
+        return self.roundtrips[name]
 
     def step_lemma(self, name, **kw):
         self.steps[name] = StepLemma(name, **kw)
@@ -599,6 +604,132 @@ def verify_step(reg: Registry, l: StepLemma, opts=None):
         res["solver_time_s"] += path.solver_time
         res["obligations"].extend(ob.to_json() for ob in path.obligations)
         res["inlined"] = sorted(set(res["inlined"]) | I.inlined)
+    obs = res["obligations"]
+    if res["unsupported"]:
+        res["status"] = "unsupported"
+    elif not obs:
+        res["status"] = "vacuous"
+    elif any(ob["status"] == "sat" for ob in obs):
+        res["status"] = "failed"
+    elif any(ob["status"] != "unsat" for ob in obs):
+        res["status"] = "undecided"
+    elif res["covers"] == 0:
+        res["status"] = "vacuous"
+    else:
+        res["status"] = "proved"
+    res["wall_s"] = round(time.time() - t0, 3)
+    res["solver_time_s"] = round(res["solver_time_s"], 3)
+    return res
+
+
+class RoundTrip:
+    """Relational wire round trip of one rdata class (C02): for arbitrary octets w, if
+    cls.from_wire_parser(w) returns x having consumed all of w, then encoding x cannot fail,
+    and decoding the encoding consumes it exactly and yields the same field values (hence the
+    encoding of a decoded record is a fixed point of decode-then-encode)."""
+
+    def __init__(self, name, cls, rdclass, rdtype, props=("C02",), note="", heavy=False, max_paths=300):
+        self.name, self.cls, self.rdclass, self.rdtype = name, cls, rdclass, rdtype
+        self.props, self.note, self.heavy, self.max_paths = list(props), note, heavy, max_paths
+
+
+def verify_roundtrip(reg: Registry, rt: RoundTrip, opts=None):
+    import dns.wire
+
+    from .interp import BoundMethod
+    from .models import equals
+    from .models2 import real_init
+    from .sym import SBytesIO
+
+    t0 = time.time()
+    res = {"contract": "roundtrip:" + rt.name, "props": rt.props, "status": None, "obligations": [], "paths": 0, "covers": 0, "functions": [],
+           "assumed_contracts": [], "inlined": [], "unsupported": None, "solver_time_s": 0.0, "note": rt.note}
+    try:
+        cls = reg.resolve(rt.cls)
+        dec = None
+        for k in cls.__mro__:
+            if "from_wire_parser" in k.__dict__:
+                dec = k.__dict__["from_wire_parser"].__func__
+                break
+        enc = None
+        for k in cls.__mro__:
+            if "_to_wire" in k.__dict__:
+                enc = k.__dict__["_to_wire"]
+                break
+        for f in (dec, enc):
+            res["functions"].append(FnInfo.of(f).describe())
+    except Exception as e:
+        res["status"], res["unsupported"] = "unresolved", f"{type(e).__name__}: {e}"
+        return res
+    o = dict(opts or {})
+    o["vc_cache"] = {}
+    work = [[]]
+    pid = 0
+    tag = f"roundtrip:{rt.name}"
+    while work:
+        dec_list = work.pop()
+        pid += 1
+        if pid > rt.max_paths:
+            res["unsupported"] = f"path limit {rt.max_paths} exceeded"
+            break
+        path = Path(dec_list, pid, o)
+        I = Interp(path, reg, None)
+        try:
+            w = I.fresh(T.bytes, "w")
+            path.inputs["w"] = w
+
+            def mkparser(buf):
+                p = SObj(dns.wire.Parser, {}, label="parser")
+                p.fields.update(wire=buf, current=0, end=SInt(z3.Length(buf.e)), furthest=0)
+                return p
+
+            p1 = mkparser(w)
+            try:
+                x = I.call(BoundMethod(cls, dec, "from_wire_parser"), [rt.rdclass, rt.rdtype, p1, None], {})
+            except PyExc:
+                raise PathEnd()  # refused: the other disjunct of the property (the exception class is C04's business)
+            if not path.branch(to_z3(p1.fields["current"]) == to_z3(p1.fields["end"]), note="consumed-all"):
+                raise PathEnd()  # restrict_to would raise FormError
+            f = SBytesIO(z3.Empty(S.SeqI), z3.IntVal(0))
+            try:
+                I.call(BoundMethod(x, enc, "_to_wire"), [f, None, None, False], {})
+            except PyExc as e:
+                path.prove(z3.BoolVal(False), f"{tag}.reencode-raises[{e.cls.__name__}]", kind="roundtrip")
+                raise PathEnd()
+            w2 = SBytes(f.buf, "bytes")
+            p2 = mkparser(w2)
+            try:
+                x2 = I.call(BoundMethod(cls, dec, "from_wire_parser"), [rt.rdclass, rt.rdtype, p2, None], {})
+            except PyExc as e:
+                path.prove(z3.BoolVal(False), f"{tag}.redecode-raises[{e.cls.__name__}]", kind="roundtrip")
+                raise PathEnd()
+            path.prove(to_z3(p2.fields["current"]) == to_z3(p2.fields["end"]), f"{tag}.redecode-consumes-exactly", kind="roundtrip")
+            for fname in sorted(x.fields):
+                if fname == "rdcomment":
+                    continue
+                if fname not in x2.fields:
+                    path.prove(z3.BoolVal(False), f"{tag}.field-missing[{fname}]", kind="roundtrip")
+                    continue
+                eq = equals(I, x.fields[fname], x2.fields[fname])
+                path.prove(I.as_bool_expr(eq), f"{tag}.field-equal[{fname}]", kind="roundtrip")
+            path.prove(I.as_bool_expr(equals(I, w2, w2)), f"{tag}.reached", kind="roundtrip")
+            if path.final_cover():
+                res["covers"] += 1
+                o["have_cover"] = True
+        except Infeasible:
+            pass
+        except PathEnd:
+            pass
+        except Unsupported as u:
+            res["unsupported"] = str(u)
+            res["obligations"].extend(ob.to_json() for ob in path.obligations)
+            break
+        work.extend(path.forks)
+        res["paths"] += 1
+        res["solver_time_s"] += path.solver_time
+        res["obligations"].extend(ob.to_json() for ob in path.obligations)
+        res["inlined"] = sorted(set(res["inlined"]) | I.inlined)
+        res["assumed_contracts"] = sorted(set(res["assumed_contracts"]) | I.assumed_calls)
     obs = res["obligations"]
     if res["unsupported"]:
         res["status"] = "unsupported"
